@@ -147,7 +147,7 @@ func (c *Ctx) call(fn *ssa.Function, args []Value) Value {
 	name := fi.name
 	if fi.pbReflect != nil && len(args) == 1 {
 		p, _ := args[0].(*Ptr)
-		return Iface{t: pbMsgType, v: pbMsg{p: p, st: fi.pbReflect}}
+		return Iface{t: pbMsgType, v: pbMsg{p: p, st: fi.pbReflect, pt: fn.Signature.Recv().Type()}}
 	}
 	if fi.intrinsic != nil && !c.bypass {
 		c.curCallee = fn
@@ -331,7 +331,7 @@ func (c *Ctx) prepCall(f *frame, cc *ssa.CallCommon) (Value, []Value) {
 		if recv.t == nil {
 			panic(&goPanic{what: "invoke on nil interface " + cc.Method.Name(), pos: c.cp()})
 		}
-		if recv.t == types.Type(pbMsgType) || recv.t == types.Type(pbFDType) {
+		if isEngineType(recv.t) {
 			var eargs []Value
 			for _, a := range cc.Args {
 				eargs = append(eargs, c.get(f, a))
